@@ -65,7 +65,8 @@ def solverCmd (j : Json) : Except String Json := do
     let cutoff ← getRat (← field j "cutoff")
     let axis ← getStr (← field j "axis")
     let kind := if axis == "arange" then AxisKind.arangeStep else AxisKind.linspaceOpen
-    match runFixed kind step { T, dt, dts, cutoff } y0 with
+    let scheme := match fieldOpt j "scheme" with | some (.str s) => s | _ => "loop"
+    match (if scheme == "scan" then runScan kind step { T, dt, dts, cutoff } y0 else runFixed kind step { T, dt, dts, cutoff } y0) with
     | .ok rows => return Json.mkObj [("rows", Json.arr (rows.map (fun r => Json.arr #[jRat r.1, jRow r.2])).toArray)]
     | .error e => return Json.mkObj [("error", errS e)]
 
